@@ -59,7 +59,7 @@ def judge(v, rows, stats):
         c = r["in"]
         stats["evaluations"] += 1
         name = c["name"]
-        if any(ch in name for ch in "/\\.%?#: ^@"):
+        if any(ch in name for ch in "/\\.%?#: ^`@"):
             stats["nontrivial"].add(name)
         bad = None
         for f in (r["filename"], r["filename_consistent"]):
@@ -114,7 +114,7 @@ def run(tier, seed):
         raise vlib.ToolError("Names.tla (role mode): " + (g.violation or "")[-1500:])
     cases = g.replays
     rnd = random.Random(seed)
-    alphabet = ["a", "F", "2", "/", "\\", ".", "%", "?", "#", ":", " ", "^", "@", "..", "%2F", ".json", "_", "~", "-"]
+    alphabet = ["a", "F", "2", "/", "\\", ".", "%", "?", "#", ":", " ", "^", "`", "@", "..", "%2F", ".json", "_", "~", "-"]
     for _ in range(400 if tier == "quick" else 5000):
         s = "".join(rnd.choice(alphabet) for _ in range(rnd.randint(3, 30)))[:64]
         cases.append({"name": s, "file": None})
@@ -123,7 +123,7 @@ def run(tier, seed):
         o = "".join(ch if (ch.isascii() and (ch.isalnum() or ch in "_.~-")) else "".join(("%%%02x" if lower else "%%%02X") % b for b in ch.encode()) for ch in x)
         return o
     specials = []
-    for x in ["a/b", "..", "../x", "a b", "%", "@", "a%b", "%C3%A9", ".", "a.json", "a/../b", "%2F", "a\\b", "a?b#c", "a:b"]:
+    for x in ["a/b", "..", "../x", "a b", "%", "@", "a%b", "%C3%A9", ".", "a.json", "a/../b", "%2F", "a\\b", "a?b#c", "a:b", "a`b", "ab", "`", "a\nb", "a\rb"]:
         specials += [x, enc(x), enc(enc(x)), enc(x, lower=True)]
     for x in dict.fromkeys(specials):
         cases.append({"name": x, "file": None, "deep": True})
